@@ -37,4 +37,34 @@ func init() {
 		Assume:  []string{"strconv.ParseInt interpreted from source (go1.23.5)", "fmt.Errorf texts are placeholders"},
 		Outside: []string{"client cancellation / disconnect releasing a blocked handler (needs goroutines and the HTTP/2 server)", "sign-prefixed values (+1S, -1S) are declared unspecified"},
 	})
+
+	addProp(&PropSpec{
+		ID: "C17",
+		Harnesses: []HarnessSpec{
+			{Name: "VerifH_proto_roundtrip", Covers: []string{"message", "clean-eof", "eof-with-data", "over-limit"}},
+			{Name: "VerifH_proto_wire", Covers: []string{"message", "bad-prefix", "short-prefix", "over-limit", "prefix>=2^63", "truncated"}},
+			{Name: "VerifH_json_roundtrip", Covers: []string{"message", "clean-eof", "eof-with-data"}},
+			{Name: "VerifH_json_wire", Covers: []string{"message", "over-limit", "unbalanced", "incomplete"}},
+			{Name: "VerifH_body_chunks", Covers: []string{"chunk", "clean-eof"}},
+		},
+		Bounds: map[string]string{
+			"quick":    "proto: k<=2 messages of <=3 symbolic bytes, every read partition x EOF placement x 3 buffer capacities x limits 1..5; arbitrary wire <=11 symbolic bytes (all 1..10-byte prefixes, all uint64 sizes) x limit 1..12 x {greedy, byte-wise} reads; json: k<=2 objects from a 6-template grammar with symbolic filler, every partition of streams <=12 bytes; arbitrary json wire <=6 symbolic bytes; body chunker: limit 1..3, every body length 0..3*limit+1, every partition of bodies <=7 bytes",
+			"thorough": "proto: k<=3, sizes<=4, wire<=13; json: k<=3, arbitrary wire<=8, partitions of streams<=16; body: limit 1..4, partitions of bodies<=10",
+		},
+		Assume:  []string{"io.Reader contract as modelled by vfFragReader (never (0,nil) on non-empty p; (n>0, io.EOF) allowed)", "protowire.ConsumeVarint/AppendVarint and io.ReadFull interpreted from source", "append growth = runtime.growslice of go1.23 (size classes)"},
+		Outside: []string{"limit <= 0", "zero-byte non-error reads", "messages longer than the stated sizes (multi-byte prefixes are covered by the arbitrary-wire harness only)"},
+	})
+	addProp(&PropSpec{
+		ID: "C05",
+		Harnesses: []HarnessSpec{
+			{Name: "VerifH_codes", Covers: []string{"in-range", "out-of-range"}},
+			{Name: "VerifH_grpcmsg", Covers: []string{"escaped", "nonempty"}},
+		},
+		Bounds: map[string]string{
+			"quick":    "status code: any uint32; grpc-message: every byte string of length 0..6",
+			"thorough": "status code: any uint32; grpc-message: every byte string of length 0..9",
+		},
+		Assume:  []string{"fmt.Sprintf(\"%%%02x\", c) modelled exactly (two lower-case hex digits)", "strings.Builder interpreted from source"},
+		Outside: []string{"what a real grpc-go / browser client decodes (transport stubs)", "JSON rendering of the status body"},
+	})
 }
